@@ -10,6 +10,7 @@ package crash
 
 import (
 	"bytes"
+	"encoding/binary"
 	"errors"
 	"fmt"
 	"os"
@@ -33,6 +34,7 @@ type W struct {
 	Key   int
 	Del   bool
 	VSize int
+	TTL   bool `json:",omitempty"` // transactional writes only: the entry carries an expiry in the far future
 }
 
 // Op is one client operation: a plain write, a transaction (all-or-nothing batch)
@@ -56,6 +58,9 @@ type Case struct {
 	Tear   []int `json:",omitempty"` // non-empty: torn-mapping images of value-log appends instead of file-operation crash points (see tear.go)
 	PostN  int   // number of images that get the post-recovery maintenance schedule (C11)
 	Expect string
+	// WriteOnce (txn mode): every key is written at most once, so no key ever has two versions and
+	// value-log GC can be generated although C02-R1 / C08-R1gc are open.
+	WriteOnce bool `json:",omitempty"`
 }
 
 // Profile tunes generation.
@@ -81,8 +86,15 @@ func Gen(t *rapid.T, p Profile) Case {
 	default:
 		c.Cfg.SyncWrites = rapid.Bool().Draw(t, "sync")
 	}
-	if p.GCBias && rapid.IntRange(0, 2).Draw(t, "gcbias") > 0 {
-		c.Mode = "plain"
+	gcTxn := false
+	if p.GCBias {
+		// GC needs either the plain API or a transactional workload whose keys are written once
+		switch rapid.IntRange(0, 3).Draw(t, "gcbias") {
+		case 0, 1:
+			c.Mode = "plain"
+		case 2:
+			c.Mode, gcTxn = "txn", true
+		}
 	}
 	if rapid.IntRange(0, 2).Draw(t, "vlogHeavy") == 0 || (p.GCBias && c.Mode == "plain") {
 		// value-log heavy flavour: several buckets, small files (frequent rotation inside a
@@ -95,6 +107,13 @@ func Gen(t *rapid.T, p Profile) Case {
 		}
 	}
 	c.Keys = eng.KeyPool(t, 2, 6)
+	if gcTxn {
+		c.WriteOnce = true
+		c.Keys = eng.KeyPool(t, 8, 16)
+		c.Cfg.ValueThreshold = 32
+		c.Cfg.VlogFileSize = 64 << 10
+		c.Cfg.Buckets = rapid.SampledFrom([]int{1, 1, 2}).Draw(t, "woBuckets")
+	}
 	if c.Cfg.Engine == "art" && (pbt.Open("C07-F7") || pbt.Open("C07-F7pad")) {
 		c.Keys = prefixFree(c.Keys)
 	}
@@ -113,11 +132,12 @@ func Gen(t *rapid.T, p Profile) Case {
 		// plain workloads do not move tables out of L0
 		maintKinds = []string{"rotate", "rotate", "rotate-async", "rotate-async", "rewrite", "gc"}
 	}
-	if c.Mode == "txn" && pbt.Open("C02-R1") {
+	if c.Mode == "txn" && pbt.Open("C02-R1") && !c.WriteOnce {
 		// GC re-inserts live old versions into the newest memtable, which then shadow newer
 		// versions in SSTs (first-hit-by-level lookup, listed as C02-R1)
 		maintKinds = []string{"rotate", "rotate", "rotate-async", "rotate-async", "drain", "once"}
 	}
+	used := map[int]bool{}
 	for i := 0; i < n; i++ {
 		op := Op{K: rapid.SampledFrom([]string{"set", "set", "set", "txn", "txn", "maint"}).Draw(t, "op")}
 		if c.Mode == "plain" && op.K == "txn" {
@@ -138,8 +158,23 @@ func Gen(t *rapid.T, p Profile) Case {
 				if seen[w.Key] {
 					continue
 				}
+				if c.WriteOnce {
+					if used[w.Key] {
+						continue
+					}
+					used[w.Key] = true
+					w.Del = false
+					if w.VSize < 1000 {
+						w.VSize = rapid.SampledFrom([]int{1000, 9000, 30000, 40000}).Draw(t, "woSize")
+					}
+					w.TTL = rapid.Bool().Draw(t, "ttl")
+				}
 				seen[w.Key] = true
 				op.Ws = append(op.Ws, w)
+			}
+			if len(op.Ws) == 0 {
+				op.K, op.M = "maint", eng.GenMaint(t)
+				op.M.Kind = rapid.SampledFrom(maintKinds).Draw(t, "mk2")
 			}
 		case "maint":
 			op.M = eng.GenMaint(t)
@@ -160,7 +195,7 @@ func Gen(t *rapid.T, p Profile) Case {
 		if c.Mode == "plain" && pbt.Open("C01-F1c") {
 			pk = []string{"rotate", "rotate", "rewrite", "gc"}
 		}
-		if c.Mode == "txn" && pbt.Open("C02-R1") {
+		if c.Mode == "txn" && pbt.Open("C02-R1") && !c.WriteOnce {
 			pk = []string{"rotate", "rotate", "compact", "compact", "once", "l0l0"}
 		}
 		m := rapid.IntRange(2, 8).Draw(t, "npost")
@@ -255,6 +290,25 @@ type Result struct {
 }
 
 func value(c Case, i, j int, w W) []byte { return eng.Value(i*8+j, w.VSize) }
+
+const farFuture = 4102444800 // year 2100
+
+// withExp is how a value with an expiry is represented in the model state: the expiry is
+// part of the contents (value-log GC and compaction must carry it along).
+func withExp(v []byte, exp uint64) []byte {
+	if exp == 0 {
+		return v
+	}
+	out := append(append([]byte(nil), v...), 0xEE)
+	return binary.BigEndian.AppendUint64(out, exp)
+}
+
+func modelValue(c Case, i, j int, w W) []byte {
+	if w.TTL {
+		return withExp(value(c, i, j, w), farFuture)
+	}
+	return value(c, i, j, w)
+}
 
 func classify(rec vfsx.Rec) string {
 	base := filepath.Base(rec.Path)
@@ -385,7 +439,7 @@ func ReadAll(c Case, db *NoKV.DB) (state, error) {
 		if verr != nil {
 			return nil, pbt.Failf("unreadable", "value of %q on the recovered database: %v", k, verr)
 		}
-		out[skey(0, k)] = v
+		out[skey(0, k)] = withExp(v, it.Entry().ExpiresAt)
 	}
 	// full scan: every key that reads as present must be a pool key with the same value
 	iter := tx.NewIterator(NoKV.IteratorOptions{})
@@ -399,6 +453,7 @@ func ReadAll(c Case, db *NoKV.DB) (state, error) {
 		if verr != nil {
 			return nil, pbt.Failf("unreadable", "scan value of %q on the recovered database: %v", e.Key, verr)
 		}
+		v = withExp(v, e.ExpiresAt)
 		want, ok := out[skey(0, e.Key)]
 		if !ok || !bytes.Equal(want, v) {
 			vers := ""
@@ -484,7 +539,11 @@ func applyOp(c Case, db *NoKV.DB, i int, op Op, cur state, r *pbt.Rec) error {
 			if w.Del {
 				werr = tx.Delete(append([]byte(nil), key...))
 			} else {
-				werr = tx.SetEntry(kv.NewEntry(append([]byte(nil), key...), value(c, i, j, w)))
+				ne := kv.NewEntry(append([]byte(nil), key...), value(c, i, j, w))
+				if w.TTL {
+					ne.ExpiresAt = farFuture
+				}
+				werr = tx.SetEntry(ne)
 			}
 			if werr != nil {
 				tx.Discard()
@@ -499,7 +558,7 @@ func applyOp(c Case, db *NoKV.DB, i int, op Op, cur state, r *pbt.Rec) error {
 			if w.Del {
 				delete(cur, skey(0, key))
 			} else {
-				cur[skey(0, key)] = value(c, i, j, w)
+				cur[skey(0, key)] = modelValue(c, i, j, w)
 			}
 		}
 	case "maint":
